@@ -2,7 +2,7 @@
    [coin] (SQLite's random()) and [db] (any list of joined rows) are universally quantified.
    reset_on_build / empty_ok = true is the specification; false is the code as found. *)
 From Coq Require Import ZArith List String Bool Sorted Permutation.
-From AV Require Import lib.Dates model.C14_Model proofs.C14_Proofs.
+From AV Require Import lib.Dates model.C14_Model proofs.C14_Proofs proofs.C14_DateZone.
 Import ListNotations.
 Open Scope Z_scope.
 
@@ -229,3 +229,23 @@ Example C14_nonvacuous :
   /\ run_query false true w_db (Query None None None (Some 2) None (Some 5) (Some 0)) 2 = Ok [1; 3]
   /\ run_frequent true true w_db (plain None) 5 1 = Ok [("BOSLHR"%string, 3)].
 Proof. exact witnesses_nonvacuous. Qed.
+
+(* Start and end dates are UTC calendar days, both inclusive, whatever the zone of the machine.  (1) the two date
+   conditions the model generates select exactly the departures whose UTC day (floor division, also before 1970) lies in
+   [s, e]; (2) for EVERY non-zero zone offset below a day, bounds taken at local midnight give a different answer for
+   some departure (seeded/C14-11: `datetime.astimezone()` on a naive midnight); (3) offset 0 is the UTC window.  The
+   correspondence runs the midnight stream with TZ set to +9, -8/-7, +14 and +5:30. *)
+Theorem C14_date_window_is_utc_days_only :
+  (forall coin db i j s e r,
+     eval_cond coin db i (CStart (86400 * s)) r && eval_cond coin db j (CEnd (86400 * (e + 1))) r =
+     (s <=? r_dep r / 86400)%Z && (r_dep r / 86400 <=? e)%Z) /\
+  (forall off, off <> 0%Z -> (-86400 < off < 86400)%Z -> forall s e, (s <= e)%Z ->
+     exists dep, in_window s e dep <> in_window_zone off s e dep) /\
+  (forall s e dep, in_window_zone 0 s e dep = in_window s e dep).
+Proof. exact date_window_is_utc_days_only. Qed.
+Print Assumptions C14_date_window_is_utc_days_only.
+
+Example C14_date_window_nonvacuous :
+  in_window 19000 19000 (86400 * 19000) = true /\ in_window 19000 19000 (86400 * 19000 + 86399) = true /\
+  in_window 19000 19000 (86400 * 19001) = false /\ in_window_zone 32400 19000 19000 (86400 * 19000 - 1) = true.
+Proof. exact date_window_nonvacuous. Qed.
